@@ -211,7 +211,8 @@ func c09FramesString(frames []wire.Frame) string {
 // c09HandlerCall is what one handler invocation saw and did.
 type c09HandlerCall struct {
 	Method string
-	MD     metadata.MD
+	MD     metadata.MD // first read of FromIncomingContext (copied before it is scribbled on)
+	MD2    metadata.MD // second read, after the first result was scribbled on
 	HasMD  bool
 	OpErrs []string // non-nil errors returned by the header/trailer API calls
 }
@@ -275,6 +276,18 @@ func (w *c09World) runServerProgram(api c09HeaderAPI, rec *c09HandlerCall) {
 	}
 }
 
+// c09ReadIncoming reads the incoming metadata, keeps a copy, scribbles on the
+// object it was given and reads again.
+func c09ReadIncoming(ctx context.Context, rec *c09HandlerCall) {
+	md, ok := metadata.FromIncomingContext(ctx)
+	rec.MD, rec.HasMD = c09CopyMD(md), ok
+	c09Scribble(md)
+	if v := metadata.ValueFromIncomingContext(ctx, "a"); len(v) > 0 {
+		v[0] = "SCRIBBLED"
+	}
+	rec.MD2, _ = metadata.FromIncomingContext(ctx)
+}
+
 func c09UnaryHandler(_ any, ctx context.Context, dec func(any) error, _ grpc.UnaryServerInterceptor) (any, error) {
 	w := c09Cur
 	var in []byte
@@ -282,12 +295,17 @@ func c09UnaryHandler(_ any, ctx context.Context, dec func(any) error, _ grpc.Una
 		return nil, err
 	}
 	rec := c09HandlerCall{Method: "u"}
-	rec.MD, rec.HasMD = metadata.FromIncomingContext(ctx)
-	w.runServerProgram(c09HeaderAPI{
+	c09ReadIncoming(ctx, &rec)
+	api := c09HeaderAPI{
 		set:  func(md metadata.MD) error { return grpc.SetHeader(ctx, md) },
 		send: func(md metadata.MD) error { return grpc.SendHeader(ctx, md) },
 		trl:  func(md metadata.MD) error { return grpc.SetTrailer(ctx, md) },
-	}, &rec)
+	}
+	if len(w.c.Alias) > 0 {
+		w.runAliasProgram(api, func() error { return fmt.Errorf("SendMsg in a unary handler") }, &rec)
+	} else {
+		w.runServerProgram(api, &rec)
+	}
 	w.mu.Lock()
 	w.calls = append(w.calls, rec)
 	w.mu.Unlock()
@@ -301,7 +319,7 @@ func c09StreamHandler(_ any, ss grpc.ServerStream) error {
 	w := c09Cur
 	ctx := ss.Context()
 	rec := c09HandlerCall{Method: "b"}
-	rec.MD, rec.HasMD = metadata.FromIncomingContext(ctx)
+	c09ReadIncoming(ctx, &rec)
 	var in []byte
 	if err := ss.RecvMsg(&in); err != nil {
 		return err
@@ -318,7 +336,11 @@ func c09StreamHandler(_ any, ss grpc.ServerStream) error {
 			trl:  func(md metadata.MD) error { return grpc.SetTrailer(ctx, md) },
 		}
 	}
-	w.runServerProgram(api, &rec)
+	if len(w.c.Alias) > 0 {
+		w.runAliasProgram(api, func() error { return ss.SendMsg([]byte("m")) }, &rec)
+	} else {
+		w.runServerProgram(api, &rec)
+	}
 	w.mu.Lock()
 	w.calls = append(w.calls, rec)
 	w.mu.Unlock()
@@ -364,6 +386,11 @@ type c09Result struct {
 	HeaderErr error
 	Trailer   metadata.MD
 	Msgs      int
+	// second reads, taken after the objects of the first reads were scribbled on
+	Second   bool
+	Header2  metadata.MD
+	Trailer2 metadata.MD
+	Alias    string // unary: the header and trailer objects share memory
 }
 
 func c09ClientCtx(prog []c09Call) (context.Context, context.CancelFunc) {
@@ -390,9 +417,15 @@ func c09RPC(cc *grpc.ClientConn, ctx context.Context, shape string) *c09Result {
 	r := &c09Result{}
 	if shape == "unary" {
 		var reply []byte
-		r.Err = cc.Invoke(ctx, "/s/u", []byte("req"), &reply, grpc.ForceCodecV2(c09Codec{}), grpc.Header(&r.Header), grpc.Trailer(&r.Trailer))
+		var h, t metadata.MD
+		r.Err = cc.Invoke(ctx, "/s/u", []byte("req"), &reply, grpc.ForceCodecV2(c09Codec{}), grpc.Header(&h), grpc.Trailer(&t))
 		if r.Err == nil {
 			r.Msgs = 1
+		}
+		r.Header, r.Trailer = c09CopyMD(h), c09CopyMD(t)
+		c09Scribble(h)
+		if !c09SameMD(t, r.Trailer) {
+			r.Alias = fmt.Sprintf("scribbling on the grpc.Header object changed the grpc.Trailer object: %s -> %s", c09MDString(r.Trailer), c09MDString(t))
 		}
 		r.Done = true
 		return r
@@ -406,7 +439,9 @@ func c09RPC(cc *grpc.ClientConn, ctx context.Context, shape string) *c09Result {
 		r.Err = err
 	}
 	cs.CloseSend()
-	r.Header, r.HeaderErr = cs.Header()
+	h1, herr := cs.Header()
+	r.Header, r.HeaderErr = c09CopyMD(h1), herr
+	c09Scribble(h1)
 	for i := 0; i < 8; i++ {
 		var m []byte
 		if err := cs.RecvMsg(&m); err != nil {
@@ -417,7 +452,12 @@ func c09RPC(cc *grpc.ClientConn, ctx context.Context, shape string) *c09Result {
 		}
 		r.Msgs++
 	}
-	r.Trailer = cs.Trailer()
+	t1 := cs.Trailer()
+	r.Trailer = c09CopyMD(t1)
+	c09Scribble(t1)
+	r.Header2, _ = cs.Header()
+	r.Trailer2 = cs.Trailer()
+	r.Second = true
 	r.Done = true
 	return r
 }
